@@ -225,8 +225,9 @@ def naming_rule(crate, prop, rule="C09.R2"):
         if b is None:
             r.fail(prop, "anchor-missing " + fn_path, "not found")
             continue
-        applies = [(blk, t) for blk, t in b.calls() if not b.is_cleanup(blk) and fn_matches(t, r"attr::Inflection::apply\w*$") and not t.get("inlined")]
-        own_applies = [(blk, t) for blk, t in applies if b.blocks[blk].get("inl") is None or not re.search(r"Inflection", b.blocks[blk].get("inl") or "")]
+        applies = [(blk, t) for blk, t in b.calls() if not b.is_cleanup(blk) and fn_matches(t, r"attr::Inflection::apply\w*$")]
+        # the call sites of the naming function itself (and of its helpers), not the conversions' own recursion
+        own_applies = [(blk, t) for blk, t in applies if not re.search(r"Inflection", b.blocks[blk].get("inl") or "")]
         for blk, t in own_applies:
             f, l = M.user_span(t["span"])
             wrong = fn_matches(t, bad)
@@ -742,6 +743,9 @@ def quoted_sink_rule(crate, syn, prop, rule="C04.R4"):
                             how = "container tag, escaped where the attributes are read"
                         elif re.search(r"(Tagged\.Adjacently::content|EnumAttr\.content)$", o) and content_ok:
                             how = "container content, escaped where the attributes are read"
+                    if how is None and ib.kind == "Closure" and cnt == 1 and first < len(t.interps) and \
+                            panics.operand_origin(ib, {"k": "copy", "pl": {"l": t.interps[first][1], "p": []}}).startswith("param"):
+                        how = "(a parameter of a closure: where it comes from is not visible here - undecided)"
                     r.inst(fn=ib.path, where="%s:%s" % (t.file, t.line), literal=v[:40], sink=argtxt[:60], escaped_by=how)
                     if how is None:
                         r.fail(prop, "unescaped-quoted-sink %s" % ib.path,
